@@ -248,6 +248,9 @@ tainted<T*, T_Sbx> copy_memory_or_grant_access(rlbox_sandbox<T_Sbx>& sandbox,
   // sandbox can grant access if it includes the following line
   // using can_grant_deny_access = void;
   if constexpr (detail::has_member_using_can_grant_deny_access_v<T_Sbx>) {
+    // as for memcpy: a buffer larger than the sandbox could enclose it entirely
+    detail::dynamic_check(source_size <= sandbox.get_total_memory(),
+                          "Granting access too large a region");
     detail::check_range_doesnt_cross_app_sbx_boundary<T_Sbx>(src, source_size);
 
     bool success;
@@ -330,6 +333,11 @@ T* copy_memory_or_deny_access(rlbox_sandbox<T_Sbx>& sandbox,
   tainted<T*, T_Sbx> src_tainted = src;
   char* src_raw = src_tainted.copy_and_verify_buffer_address(
     [](uintptr_t val) { return reinterpret_cast<char*>(val); }, num);
+  if (!src_raw) {
+    // null source: nothing to copy from
+    free(copy);
+    return nullptr;
+  }
   std::memcpy(copy, src_raw, source_size);
   if (free_source_on_copy) {
     sandbox.free_in_sandbox(src);
